@@ -33,6 +33,7 @@ RULE = (
     "user labels (value and type) and no label this call never had; in a third of the cases a second call of the same task "
     "(own labels, own outcomes) is handled by the same middleware instance afterwards and must follow its own model. Non-trivial: >=2 executions, or max_retries in {0,1}, or the retry flag given as a "
     "string; distinct = canonical JSON."
+    " Optionally the same middleware object was attached to another broker before being added to this one (it serves the broker it was added to last)."
 )
 ASSUMPTIONS = ["deliveries are driven directly through Receiver.callback (no listen loop: timing is irrelevant to C11)"]
 
@@ -70,6 +71,7 @@ def cases() -> Any:
         subclass=st.sampled_from([False, False, True]),
         store_prefill=st.sampled_from([None, None, 1, 2, 3]),
         warmup=st.sampled_from([False, False, True]),
+        reused_mw=st.sampled_from([False, False, True]),
         fail_kind=st.sampled_from(["ValueError", "ValueError", "KeyError", "MyBase", "CancelledError", "SystemExit", "EmptyBatchError", "TaskiqResultTimeoutError", "SendTaskError", "TaskRejectedError", "ResultGetError"]),
         # a second call of the same task handled by the same middleware instance (own labels, own outcome sequence)
         second=st.one_of(st.none(), st.none(), st.fixed_dictionaries(dict(
@@ -184,6 +186,10 @@ def run_case(c: Dict[str, Any]) -> Outcome:
             # a project-wide subclass that only inherits the hooks (e.g. to change constructor defaults)
             mw_cls = type("AppRetryMiddleware", (SimpleRetryMiddleware,), {"__doc__": "inherits on_error"})
         the_mw = mw_cls(default_retry_count=c["dflt_count"], default_retry_label=c["dflt_label"], no_result_on_retry=c["nror"])
+        if c.get("reused_mw"):
+            # the same middleware object was attached to another broker before (a module-level instance shared by a test broker
+            # and the real one, a broker rebuilt after reconfiguration): it serves the broker it was added to last
+            QB().add_middlewares(the_mw)
         if not c.get("warmup"):
             b.add_middlewares(the_mw)
         seen: List[Any] = []
